@@ -262,6 +262,8 @@ struct World {
     tmp_missing: bool,
     cache_blocked: bool,
     timeout_s: u64,
+    /// a symbol file for module 0 in the local symbol path: None | good | corrupt
+    local_file: Option<(bool, Vec<u8>)>,
 }
 
 fn good_entry(m: &ModSpec) -> Vec<u8> {
@@ -397,6 +399,21 @@ fn build_world(ntasks_max: u32, files_only: bool) -> World {
     }
     let timeout_s = [1000u64, 5, 60][ch("e3.timeout", 3) as usize];
     let use_local = chance("e3.use_local", 1, 4);
+    let mut local_file = None;
+    if use_local && pre == Pre::None {
+        match ch("e3.local_file", 3) {
+            0 => {}
+            k => {
+                let p = local.join(&mods[0].rel);
+                std::fs::create_dir_all(p.parent().unwrap()).unwrap();
+                let good = k == 1;
+                let content = if good { (*mods[0].body).clone() } else { b"MODULE Linux x86 000 x\nFUNC nonsense\n".to_vec() };
+                std::fs::write(&p, &content).unwrap();
+                local_file = Some((good, content));
+                probe(if good { "e3.local_good" } else { "e3.local_corrupt" });
+            }
+        }
+    }
     let suppliers: Vec<Rc<HttpSymbolSupplier>> = (0..ninst)
         .map(|_| {
             Rc::new(HttpSymbolSupplier::new(
@@ -435,6 +452,7 @@ fn build_world(ntasks_max: u32, files_only: bool) -> World {
         tmp_missing,
         cache_blocked,
         timeout_s,
+        local_file,
     }
 }
 
@@ -758,6 +776,7 @@ fn run_inner(c12_files: bool) -> Outcome {
         "urls": world.urls,
         "ops": world.ops.iter().map(|o| format!("{:?}", o)).collect::<Vec<_>>(),
         "pre_existing": format!("{:?}", world.pre),
+        "local_symbol_file": world.local_file.as_ref().map(|(g, _)| if *g { "good" } else { "corrupt" }),
         "tmp_missing": world.tmp_missing,
         "cache_parent_blocked": world.cache_blocked,
         "timeout_s": world.timeout_s,
@@ -807,6 +826,11 @@ fn run_inner(c12_files: bool) -> Outcome {
                             candidates.push((c.clone(), None));
                         }
                     }
+                    if op.module == 0 {
+                        if let Some((_, c)) = &world.local_file {
+                            candidates.push((c.clone(), None));
+                        }
+                    }
                     for (bytes, url) in candidates {
                         if let Ok(mut t) = SymbolFile::from_bytes(&bytes) {
                             if let Some(u) = url {
@@ -850,6 +874,25 @@ fn run_inner(c12_files: bool) -> Outcome {
             if !world.mods[0].needs_code_lookup {
                 let asked = snaps.iter().any(|s| model.borrow().sym_urls.get(&url_without_query(&s.info.url)).copied().map(|mi| world.mods[mi].rel == world.mods[0].rel).unwrap_or(false));
                 simkit::ensure!(!asked, "c16.corrupt_entry_cascaded", "a corrupt cache entry was followed by a network request");
+            }
+        }
+        // 6'. the local symbol path is consulted before the network: a good local file answers
+        // without a request, a corrupt one stops the lookup with a parse error and no request
+        if let Some((good, _)) = &world.local_file {
+            if !world.mods[0].needs_code_lookup {
+                let asked = snaps.iter().any(|s| model.borrow().sym_urls.get(&url_without_query(&s.info.url)).copied().map(|mi| world.mods[mi].rel == world.mods[0].rel).unwrap_or(false));
+                simkit::ensure!(!asked, "c16.local_file_ignored", "a symbol file in the local symbol path was followed by a network request ({})", if *good { "good file" } else { "corrupt file" });
+                for (slot, r) in res.iter().enumerate() {
+                    let Some(OpResult::Symbols(r)) = r else { continue };
+                    let op = &world.ops[slot % nops];
+                    if op.module == 0 {
+                        if *good {
+                            simkit::ensure!(r.is_ok(), "c16.local_file_ignored", "a good local symbol file did not answer the lookup");
+                        } else {
+                            simkit::ensure!(matches!(r, Err(SymbolError::ParseError(..))), "c16.corrupt_entry_cascaded", "a corrupt local symbol file did not stop the lookup with a parse error");
+                        }
+                    }
+                }
             }
         }
         // 5. every new .sym entry reloads, without network, to the table and URL of its download
